@@ -141,6 +141,11 @@ func TestVerifC04Cuts(t *testing.T) {
 		}
 	}
 	for c := 0; c < n; c++ {
+		if c%8 == 7 {
+			// (every eighth case; a proof-tree history emits several cases)
+			vC04CaseProofTree(out, r)
+			continue
+		}
 		switch c % 4 {
 		case 0:
 			vC04CaseProofExp(out, r)
@@ -676,30 +681,64 @@ func vC04CaseProofTree(out *vC04Out, r *rand.Rand) {
 		asc.hasCut, asc.cut = true, k.now()+int64(time.Duration(2+r.Intn(40))*time.Second)+int64(r.Intn(900))*int64(time.Millisecond)
 	}
 	env.stub.script[alias] = asc
+	cutID := nxDomainCutID{deniedName: denied, qclass: dns.ClassINET}
+	// the deadline of the denial each cached alias entry was composed from
+	composedFrom := map[*CacheEntry]int64{}
+	secsLeft := func(deadline, now int64) int64 {
+		if deadline <= now {
+			return -1
+		}
+		return (deadline - now) / int64(time.Second)
+	}
 	for s, steps := 0, 3+r.Intn(4); s < steps; s++ {
-		P, ok := pexp()
-		if !ok {
-			return
+		// what the denial rung holds: a subtree cut for the name (recorded when an earlier
+		// synthesised denial was adopted) is consulted before the proof index. Both deadlines
+		// are read up front; which of them answers is a function of the clock reading alone.
+		rungAt := func() func(t int64) (int64, bool) {
+			var dcut, dproof int64
+			hasCutE := false
+			if ce := env.c.store.nxDomainCuts.entries[cutID]; ce != nil {
+				dcut, hasCutE = k.virt(ce.expires), true
+			}
+			dproof, hasProof := pexp()
+			return func(t int64) (int64, bool) {
+				switch {
+				case hasCutE && t < dcut:
+					return dcut, true
+				case hasProof && t < dproof:
+					return dproof, true
+				case hasCutE && hasProof && dproof > dcut:
+					return dproof, false // nothing live: the later of the two ended last
+				case hasCutE:
+					return dcut, false
+				}
+				return dproof, false
+			}
 		}
 		now := k.now()
+		D, live := rungAt()(now)
+		if !live && s > 0 {
+			return
+		}
 		target := now
 		switch r.Intn(6) {
 		case 0:
-			target = P - int64(2600*time.Millisecond)
+			target = D - int64(2600*time.Millisecond)
 		case 1:
-			target = P - int64(1400*time.Millisecond)
+			target = D - int64(1400*time.Millisecond)
 		case 2:
-			target = P - int64(300*time.Millisecond)
+			target = D - int64(300*time.Millisecond)
 		case 3:
-			target = P + int64(300*time.Millisecond)
+			target = D + int64(300*time.Millisecond)
 		case 4:
-			if P > now {
-				target = now + r.Int63n(P-now+1)
+			if D > now {
+				target = now + r.Int63n(D-now+1)
 			}
 		}
 		if target > now {
 			vC04Shift(env.c, k, time.Duration(target-now))
 		}
+		rung := rungAt()
 		qname := alias
 		if r.Intn(3) == 0 {
 			qname = denied
@@ -707,16 +746,95 @@ func vC04CaseProofTree(out *vC04Out, r *rand.Rand) {
 		route := []int{0, 1, 2, 3}[r.Intn(4)]
 		do := r.Intn(4) > 0
 		preAlias := env.peek(vC04Key(alias, false))
-		preDenied := env.peek(vC04Key(denied, false))
 		rep := env.query(route, qname, do, false, nil, "")
 		postAlias := env.peek(vC04Key(alias, false))
-		postDenied := env.peek(vC04Key(denied, false))
-		var dump []string
-		for id, e := range env.c.store.denialProofs.byID {
-			dump = append(dump, fmt.Sprintf("%v/%v exp-t0=%d seq=%d", id.kind, id.owner, k.virt(e.expires)-rep.t0, e.sequence))
+		stubbed := map[string]bool{}
+		for _, n := range rep.stubbed {
+			stubbed[n] = true
 		}
-		out.emit(map[string]any{"k": "dbg-proof-tree", "inconclusive": true, "desc": map[string]any{"index_after": dump,
-			"q": qname, "route": route, "do": do, "P_in": P - rep.t0, "stubbed": rep.stubbed, "reply": fmt.Sprint(rep.msg), "bound": rep.bound, "bound_minus_t0": rep.boundV - rep.t0,
-			"preAlias": vC04Ent(k, preAlias), "preDenied": vC04Ent(k, preDenied), "postAlias": vC04Ent(k, postAlias), "postDenied": vC04Ent(k, postDenied), "t0": rep.t0}})
+		if rep.msg == nil || stubbed[denied] || rep.msg.Rcode != dns.RcodeNameError {
+			continue // the denial rung was not what answered: nothing composed from it
+		}
+		aliasHit := qname == alias && !stubbed[alias]
+		// ambiguous bracket: the rung changes hands, or its deadline crosses a whole second
+		// or its end, inside [t0,t1]
+		D, live0 := rung(rep.t0)
+		D1, live1 := rung(rep.t1)
+		amb := live0 != live1 || D != D1 || secsLeft(D, rep.t0) != secsLeft(D, rep.t1)
+		if aliasHit && preAlias != nil {
+			r0, r1 := preAlias.remaining(k.real(rep.t0)), preAlias.remaining(k.real(rep.t1))
+			amb = amb || (r0 > 0) != (r1 > 0) || (r0 > 0 && r0/time.Second != r1/time.Second)
+		}
+		leaseS := "None"
+		if !aliasHit && qname == alias && asc.hasCut {
+			leaseS = "(Some " + vC04Z(asc.cut) + ")"
+			amb = amb || secsLeft(asc.cut, rep.t0) != secsLeft(asc.cut, rep.t1)
+		}
+		if amb {
+			out.emit(map[string]any{"inconclusive": true})
+			continue
+		}
+		// TTLs of the records that came out of the cache: the denial's authority section, and
+		// the alias record too when the whole answer is a hit on the cached alias entry
+		var ttls []string
+		var raw []uint32
+		for _, rr := range rep.msg.Ns {
+			raw = append(raw, rr.Header().Ttl)
+		}
+		hitS, dspec := "None", D
+		if aliasHit {
+			if preAlias == nil {
+				continue
+			}
+			for _, rr := range rep.msg.Answer {
+				raw = append(raw, rr.Header().Ttl)
+			}
+			hitS = fmt.Sprintf("(Some (mk_entry 0 %s %d %s false))", vC04Z(k.virt(preAlias.stored)), int64(preAlias.ttl), vC04Cut(k, preAlias.cutUntil))
+			d0, known := composedFrom[preAlias]
+			if !known {
+				continue
+			}
+			dspec = d0
+		}
+		fail := ""
+		for _, x := range raw {
+			ttls = append(ttls, fmt.Sprint(x))
+			if rep.t0 >= dspec {
+				fail = "a synthesised denial (or an answer composed from it) was served past the end of the denial"
+			} else if int64(x)*int64(time.Second) > dspec-rep.t0 {
+				fail = fmt.Sprintf("TTL %d exceeds the %dns left of the denial the answer was composed from", x, dspec-rep.t0)
+			}
+		}
+		var adm []string
+		if postAlias != nil && postAlias != preAlias {
+			composedFrom[postAlias] = D
+			adm = append(adm, fmt.Sprintf("(%s, %d, %s)", vC04Z(k.virt(postAlias.stored)), int64(postAlias.ttl), vC04Cut(k, postAlias.cutUntil)))
+			end := postAlias.stored.Add(postAlias.ttl)
+			if !postAlias.cutUntil.IsZero() && postAlias.cutUntil.Before(end) {
+				end = postAlias.cutUntil
+			}
+			if k.virt(end) > D {
+				fail = fmt.Sprintf("the alias re-cached from a synthesised denial outlives it by %dns", k.virt(end)-D)
+			}
+		}
+		bobs := "None"
+		if route != 2 {
+			bobs = "(Some " + rep.bound + ")"
+			if !rep.boundOK || rep.boundV > dspec {
+				fail = "the request tree is not bound by the denial it was answered from"
+			}
+		}
+		kk := fmt.Sprintf("proof-tree-route%d", route)
+		switch {
+		case aliasHit:
+			kk += "-aliashit"
+		case qname == alias:
+			kk += "-adopted"
+		default:
+			kk += "-direct"
+		}
+		out.emit(map[string]any{"k": kk, "nontrivial": true, "go_fail": fail,
+			"coq":  fmt.Sprintf("CProofTree %s %s %s %s %s %s [%s]%%Z %s [%s]", vC04Z(D), vC04Z(dspec), leaseS, hitS, vC04Z(rep.t0), vC04Z(rep.t1), strings.Join(ttls, "; "), bobs, strings.Join(adm, "; ")),
+			"desc": map[string]any{"q": qname, "route": route, "do": do, "went_downstream": rep.stubbed, "reply": fmt.Sprint(rep.msg), "denial_ends_in": D - rep.t0}})
 	}
 }
